@@ -291,10 +291,21 @@ impl Term {
         let built: Vec<Built> = children.iter().map(|c| c.build_typed()).collect();
         if *add {
           let mut c = ConcatSource::default();
-          for b in built {
+          for (b, term) in built.into_iter().zip(children) {
             match b {
               Built::Concat(cc) if *typed => c.add(cc),
               Built::Concat(cc) => c.add(cc.boxed()),
+              // typed + add: leaves are handed to the generic `add::<S>` as values of their own type
+              Built::Box(bx) if *typed => match term {
+                Term::Raw(s) => c.add(RawSource::from(s.clone())),
+                Term::RawBuf(v) => c.add(RawSource::from(v.clone())),
+                Term::RawStr(s) => c.add(RawStringSource::from(s.clone())),
+                Term::RawBufS(v) => c.add(RawBufferSource::from(v.clone())),
+                Term::Orig(s, f) => c.add(OriginalSource::new(s.clone(), f.clone())),
+                Term::Sms(spec) => c.add(build_sms(spec)),
+                Term::Cached(inner) => c.add(CachedSource::new(inner.build())),
+                _ => c.add(bx),
+              },
               Built::Box(bx) => c.add(bx),
             }
           }
